@@ -36,7 +36,7 @@ Theorem C17_file_scope_isolated : forall regs ls sc n v,
   lookup_label regs ls sc n = Some v ->
   (exists f r, sc = ScLocal f r /\ lfind ls (KLocal r n) = Some v)
   \/ lfind ls (KFile (scope_file sc) n) = Some v
-  \/ (mem n regs = false /\ lfind ls (KGlobal n) = Some v).
+  \/ (reg_mem n regs = false /\ lfind ls (KGlobal n) = Some v).
 Proof. exact lookup_sound. Qed.
 Print Assumptions C17_file_scope_isolated.
 
